@@ -13,7 +13,7 @@ from .common import PB, PE, PC, PL, PU, LX, ckey, is_super_call, is_self_call
 
 P = "C13"
 EXPLANATION = (
-    "Static rules D13.1-D13.6 (DESIGN.md section 5, C13): truth tables of all is_valid implementations against the "
+    "Static rules D13.1-D13.7 (DESIGN.md section 5, C13): truth tables of all is_valid implementations against the "
     "specification formulas (enumerating every consistent valuation of the status atoms), reply offsets of the two "
     "_parse_reply families and of the extended-status reader against the message-router reply layout, T-WRAP containment "
     "of every _parse_reply override (record mode: failures must end in self._error), the partial-transfer service set, "
@@ -455,3 +455,109 @@ def d13_6(ctx):
             ctx.check(good, key, call, "successful response carries its value", "successful response loses its value", value=src(value) if value else None)
         else:
             ctx.violation(key, call, "Tag built from a response without testing its validity")
+
+
+@rule(P, "D13.7", "T-NULL", floor=4)
+def d13_7(ctx):
+    """Reply fields that start as None are never measured or joined while still None: the driver's fragment loop uses
+    value_bytes whenever the reply's status says 'more data', so (a) a decoded service status implies the reply data was
+    sliced out, (b) every parse path of the fragmented read reply binds value_bytes from that data unless a parse error took
+    the handler, and (c) each use in the driver is dominated by a status/validity test of the same reply."""
+    from ..astutil import ancestors
+    from ..linexpr import atom_name
+
+    frag = ctx.model.cls(f"{PL}:ReadTagFragmentedResponsePacket")
+    init = frag.methods.get("__init__")
+    none_attrs = set()
+    for n in walk(init) if init else []:
+        if isinstance(n, ast.Assign) and isinstance(n.value, ast.Constant) and n.value.value is None:
+            for t in n.targets:
+                if (attr_path(t) or "").startswith("self."):
+                    none_attrs.add(t.attr)
+    # keep the fields only this reply class stores (a name like `value` is shared with unrelated objects and cannot be
+    # attributed to this class without types)
+    for c in ctx.model.classes.values():
+        if frag in c.mro():
+            continue
+        for m in c.methods.values():
+            for n in walk(m):
+                if isinstance(n, ast.Attribute) and isinstance(n.ctx, ast.Store) and n.attr in none_attrs and attr_path(n) == f"self.{n.attr}":
+                    none_attrs.discard(n.attr)
+    drv = ctx.model.cls(f"{LX}:LogixDriver")
+    uses = []
+    for m in drv.methods.values():
+        for n in walk(m):
+            if isinstance(n, ast.Attribute) and isinstance(n.ctx, ast.Load) and n.attr in none_attrs and not attr_path(n).startswith("self."):
+                p = getattr(n, "_parent", None)
+                needs = (isinstance(p, ast.Call) and call_name(p) == "len") or isinstance(p, (ast.GeneratorExp, ast.ListComp, ast.Subscript, ast.BinOp))
+                if needs:
+                    uses.append((m, n))
+    attrs = sorted({n.attr for _, n in uses})
+    if not attrs:
+        ctx.undecided(ckey(frag.key, "nullable-fields"), frag.node, f"no driver use of a None-initialised reply field found ({sorted(none_attrs)})")
+        return
+    # (a) producer coupling: status decoded => data sliced
+    su = None
+    for c in frag.mro():
+        m = c.methods.get("_parse_reply")
+        if m is not None and any(isinstance(x, ast.Assign) and any(attr_path(t) == "self.service_status" for t in x.targets) for x in walk(m)):
+            su = (c, m)
+            break
+    if su is None:
+        ctx.undecided(ckey(frag.key, "status-implies-data"), frag.node, "service_status assignment not found in the _parse_reply chain")
+    else:
+        c, m = su
+        g = ctx.cfg(m)
+        S = [n for n in g.nodes if n.kind == "stmt" and isinstance(n.ast, ast.Assign) and any(attr_path(t) == "self.service_status" for t in n.ast.targets)]
+        D = [n for n in g.nodes if n.kind == "stmt" and isinstance(n.ast, ast.Assign) and any(attr_path(t) == "self.data" for t in n.ast.targets)]
+        pure = lambda e, base: isinstance(e, ast.Subscript) and isinstance(e.slice, ast.Slice) and attr_path(e.value) == base and all(b is None or isinstance(ctx.folder.eval(b, c.module), int) for b in (e.slice.lower, e.slice.upper, e.slice.step))  # noqa: E731
+        ok = len(S) == 1 and len(D) == 1 and pure(D[0].ast.value, "self.raw") and any(pure(x, "self.raw") for x in walk(S[0].ast.value)) \
+            and g.must_pass({D[0]}, start=S[0], sinks={g.exit}, avoid_edges=lambda a, b, lab: lab == "exc") is None \
+            and [s for s, lab in S[0].succ if lab != "exc"] == [D[0]]
+        ctx.check(ok, ckey(c.key + "._parse_reply", "status-implies-data"), S[0].ast if S else m, "`self.data = self.raw[..]` directly follows the status decode (a constant slice of the bytes just sliced cannot fail)",
+                  "a reply can carry a decoded service_status while self.data is still None: the data slice does not directly follow the status decode")
+    # (b) every parse path binds the field from the data or records a parse error
+    m = frag.methods.get("_parse_reply")
+    g = ctx.cfg(m)
+    for a in attrs:
+        V = {n for n in g.nodes if n.kind == "stmt" and isinstance(n.ast, ast.Assign) and any(attr_path(t) == f"self.{a}" for t in n.ast.targets)}
+        H = {n for n in g.nodes if n.kind == "handler"}
+        pure_src = all(isinstance(n.ast.value, ast.Subscript) and attr_path(n.ast.value.value) == "self.data" for n in V)
+
+        def data_is_none_branch(x, y, lab):
+            if lab == "exc":
+                return True
+            if x.kind == "test" and isinstance(x.ast, ast.Compare) and attr_path(x.ast.left) == "self.data" and isinstance(x.ast.comparators[0], ast.Constant) and x.ast.comparators[0].value is None:
+                return lab == isinstance(x.ast.ops[0], (ast.Is, ast.Eq))
+            return False
+
+        wit = g.must_pass(V | H, sinks={g.exit}, avoid_edges=data_is_none_branch) if V else [g.entry]
+        # the statements of the try body ahead of the binding only slice / compare self.data: with data present they cannot fail
+        calls_before = [x for n in V for t in g.nodes if t.kind == "test" and any(g.branch_dominates(t, br, n) for br in (True, False)) for x in walk(t.ast) if isinstance(x, ast.Call)]
+        ctx.check(bool(V) and wit is None and pure_src and not calls_before, ckey(frag.key + "._parse_reply", f"binds:{a}"), m,
+                  f"every parse path binds self.{a} from self.data (or records a parse error in the handler)",
+                  f"a path through _parse_reply (lines {[p.lineno for p in (wit or []) if p.lineno]}) finishes without binding self.{a} and without a parse error: the reply keeps {a}=None while its "
+                  f"service_status may say 'more data', and LogixDriver._send_read_fragmented then measures None (TypeError out of read())" if (not V or wit is not None) else
+                  f"self.{a} is not a plain slice of self.data / its guards call functions that may fail with data present")
+    # (c) consumers
+    for mth, n in uses:
+        g = ctx.cfg(mth)
+        st = n
+        while not isinstance(st, ast.stmt):
+            st = getattr(st, "_parent")
+        nodes = g.nodes_of(st)
+        base = attr_path(n.value)
+        ok, how = False, ""
+        comp = next((a_ for a_ in ancestors(n) if isinstance(a_, (ast.GeneratorExp, ast.ListComp))), None)
+        for t in g.nodes:
+            if t.kind != "test" or not nodes or t.ast is None or not g.branch_dominates(t, True, nodes[0]):
+                continue
+            conj = t.ast.values if isinstance(t.ast, ast.BoolOp) and isinstance(t.ast.op, ast.And) else [t.ast]
+            for e in conj:
+                if comp is None and isinstance(e, ast.Compare) and attr_path(e.left) == f"{base}.service_status" and isinstance(e.ops[0], ast.Eq) and isinstance(ctx.folder.eval(e.comparators[0], drv.module), int):
+                    ok, how = True, f"under `{src(e)}`"
+                if comp is not None and isinstance(e, ast.Call) and call_name(e) == "all" and e.args and atom_name(e.args[0]) == atom_name(comp.generators[0].iter) and atom_name(comp.generators[0].target) == base:
+                    ok, how = True, f"every element valid: `{src(e)}`"
+                if comp is None and (atom_name(e) == base or (isinstance(e, ast.Call) and attr_path(e.func) == f"{base}.is_valid")):
+                    ok, how = True, f"under `{src(e)}`"
+        ctx.check(ok, ckey(f"{drv.key}.{mth.name}", f"nonnull:{src(n)}@{'comp' if comp is not None else 'stmt'}"), n, f"`{src(n)}` used {how}", f"`{src(n)}` is measured/joined without a dominating status or validity test of that reply: it is None for replies that failed to parse")
